@@ -45,3 +45,24 @@ Example C09_example :
   prun [PStart; PRead; PStart; PReapCreate; PReapCreate; PWaitAll; PCheat; PReleaseMine; PRead; PExit] start_book
   = Some {| my := 1; ch := 0; kids := 0 |}.
 Proof. vm_compute. reflexivity. Qed.
+
+(* finding F81: before the fix the book counted a cheat on top of an unpaid one;
+   the sequence observed on the implementation failed the assertion at exit.
+   (The model's PCheat had carried a guard "cheats = 0" that the code did not
+   have: the theorem above was then about a tidier program than the real one.
+   The fix puts the guard into the code.) *)
+Theorem C09_double_cheat_refuted_before_F81 : prun_before_F81 double_cheat start_book = None.
+Proof. exact double_cheat_refuted_before_F81. Qed.
+Check C09_double_cheat_refuted_before_F81 : prun_before_F81 double_cheat start_book = None.
+Print Assumptions C09_double_cheat_refuted_before_F81.
+Example C09_debt_repaid_now_safe : prun debt_repaid start_book = Some {| my := 1; ch := 1; kids := 0 |}.
+Proof. exact debt_repaid_safe. Qed.
+
+(* the order of steps the token-book model assumes (no second cheat while in debt,
+   fix F81; a job's pipe is made before its token is destroyed, fix F72), read
+   off the current source by tools/anchors.py *)
+From Redo Require Anchors Sched.ProtocolTie.
+Theorem C09_token_book_tied_to_source : forallb snd Anchors.protocol_facts = true.
+Proof. exact Sched.ProtocolTie.protocol_facts_hold. Qed.
+Check C09_token_book_tied_to_source : forallb snd Anchors.protocol_facts = true.
+Print Assumptions C09_token_book_tied_to_source.
